@@ -196,7 +196,9 @@ def corr(ctx):
 
     # (a3) Template.__init__: URI check and module path ----------------------------------------------
     st = ctx.stream("corr.template_check_modpath")
-    sub = allu if not ctx.quick else (uris[:: 5] + rnd[:: 5])
+    # Template(uri='') takes the no-uri branch (module id and uri derived from the file name); the lookup never
+    # constructs a Template for the empty uri (no file can match it), so it is outside this stream
+    sub = [u for u in (allu if not ctx.quick else (uris[:: 5] + rnd[:: 5])) if u]
     mods = ["/var/mods", "mods/", "/var/./mods/../mods"]
     accepted = rejected = 0
     for m in mods:
